@@ -596,6 +596,10 @@ func (p *c14) Run(i int) (res fw.Result) {
 }
 
 func (p *c14) Rule() string {
+	return p.ruleBase() + " " + "Round 12: 252 more raw token sequences - 3..600 brackets of one kind or of all three in turn open inside a hash in a hash (as a print, directly before the closing delimiter, in a set tag), spelled with one blank everywhere, with none where tokens cannot merge (closing braces next to each other and next to the closing delimiter), with line breaks and mixed."
+}
+
+func (p *c14) ruleBase() string {
 	return "long templates: for T in {128 .. 16384} and c in 0..39 the c-th token of a tail of nested tags is made token number T (a run of prints in front, text tokens as shifters), in a spelling without and one with blanks inside the delimiters - the output is known in advance; " + fmt.Sprintf("one template per tag kind and expression form (%d forms: if/elseif/else, for with key/cond/else, set, set-capture, filter section, block, macro+call, import, from with alias, include with/only/expression name, embed with/only/override, do, verbatim, extends+use with aliases, and 27 expression forms covering every operator family incl. the alphabetic ones, unary, nested conditional, tests with arguments, attribute/bracket access, filter chains, calls, nested arrays, hashes with bare/quoted/computed keys, empty lists, interpolation (also with string literals inside the interpolated expressions), groups, strings needing either quote), each placed at top level and inside a for, block, if and set-capture body after a text run (the push-back path). For each: exhaustive single-boundary sweep (every token boundary x 7 whitespace strings: none-where-tokens-cannot-merge, blank, TAB, LF, CRLF, CR, mixed run), pairwise sweep (7x7 values on boundary pairs: all pairs thorough, adjacent and sampled pairs quick), uniform spellings, and the quote / trailing-comma / trim-marker / combined variants; plus seeded random programs from the generator x random re-spellings. Oracle (metamorphic): the re-spelling renders the same bytes, the same error kind and the same callback log as the canonical spelling. Non-trivial = placement inside a nested body; enumerated variants are distinct by construction.", len(c14Templates())+1)
 }
 
